@@ -12,7 +12,7 @@ from pyvc import npsym as N
 from pyvc import terms as T
 from pyvc.contract import Contract, register
 from pyvc.ctx import PathAbort
-from pyvc.values import Arr, Rec, SymList
+from pyvc.values import Arr, Opaque, Rec, SymList
 
 from .gcp import sym_ktensor
 
@@ -1056,3 +1056,97 @@ class get_mttkrp_factors(Contract):
             [m, i, r], z3.Implies(z3.And(0 <= m, m < g["N"], 0 <= i, i < T.tz(g["shape"].fn(m)), 0 <= r, r < g["R"]),
                                   T.tz(T.as_real(item.fn(i, r))) == z3.If(m == target, g["fm"](m, i, r) * wv(r), g["fm"](m, i, r))))
         yield "absorbing-factor-differs-from-the-skipped-one", target != T.tz(a["n"])
+
+
+# ======================================================================= values of a Kruskal tensor at given subscripts
+
+def _abs_find(it, pos, kw, self_val):
+    """W.find(): the subscripts of the nonzeros of the mask, each inside W.shape (values not used)"""
+    from pyvc.contract import S as _S
+    ctx = it.ctx
+    wshape = self_val.fields["shape"]
+    nv = T.fresh_int("nvals")
+    ctx.assume(nv >= 0)
+    Nw = wshape.shape[0]
+    subs = Arr.fresh("wsubs", (nv, Nw), "int")
+    s_, q = T.fresh_int("s"), T.fresh_int("q")
+    ctx.assume(T.ForAll([s_, q], z3.Implies(z3.And(0 <= s_, s_ < nv, 0 <= q, T.lt(q, Nw)),
+                                            z3.And(0 <= T.tz(subs.fn(s_, q)), T.tz(T.lt(subs.fn(s_, q), wshape.fn(q))))), [subs.fn(s_, q)]))
+    ctx.log_ghost("mask:wsubs", subs)
+    return (subs, Opaque("mask-values"))
+
+
+@register
+class kt_mask(Contract):
+    qual = K_ + "mask"
+    props = ("C02", "C08", "C19")
+    doc = ("K.mask(W) for a mask W of the same order whose shape does not exceed K's in any mode (else raises): one value per "
+           "nonzero of W, the value of the Kruskal tensor there -- vals[s] = sum_j w_j * prod_k U_k[subs[s, k], j], stated with "
+           "two recursive specification functions (product over the modes, sum over the components) and proved with two nested "
+           "loop invariants; this is the defining formula of the array a Kruskal tensor denotes, evaluated at given subscripts.")
+    inline = KT_INLINE
+
+    def abstract_calls(self, S, a):
+        return {"pyttb.sptensor.sptensor.find": _abs_find, "pyttb.tensor.tensor.find": _abs_find}
+
+    def case_names(self):
+        return ["sparse-mask"]
+
+    def setup(self, S, case):
+        K = sym_ktensor(S, "K")
+        g = K.ghost
+        Nw = S.int("Nw", 1)
+        wshape = S.vector("wshape", Nw, "int", kind="tuple")
+        S.assume(S.forall(0, Nw, lambda q: wshape.fn(q) >= 1, pats=lambda q: [wshape.fn(q)]))
+        W = Rec("sptensor", dict(shape=wshape))
+        RS = z3.RealSort()
+        TERM = z3.Function(T.fresh_name("TERM"), I_, I_, I_, RS)     # TERM(k, j, s): w_j * product over the first k modes
+        ACC = z3.Function(T.fresh_name("ACC"), I_, I_, RS)           # ACC(j, s): sum over the first j components
+        g["TERM"], g["ACC"], g["W"] = TERM, ACC, W
+        return dict(__self__=K, W=W, __Nw__=Nw, __wshape__=wshape)
+
+    def raises_when(self, S, a):
+        g = a["__self__"].ghost
+        q = z3.Int("mk!q")
+        yield "order-differs", a["__Nw__"] != g["N"]
+        yield "mask-larger-than-the-tensor", z3.And(a["__Nw__"] == g["N"], T.Exists(
+            [q], z3.And(0 <= q, q < g["N"], T.tz(a["__wshape__"].fn(q)) > T.tz(g["shape"].fn(q)))))
+
+    @staticmethod
+    def _defs(S, a, subs):
+        """Defining equations of TERM / ACC for the subscripts the mask delivered (assumed once they are known)."""
+        K = a["__self__"]
+        g = K.ghost
+        if g.get("defs_for") is subs:
+            return
+        g["defs_for"] = subs
+        TERM, ACC = g["TERM"], g["ACC"]
+        k, j, s_ = z3.Int("mk!k"), z3.Int("mk!j"), z3.Int("mk!s")
+        wv = lambda j_: T.tz(K.fields["weights"].fn(j_))
+        S.ctx.assume(T.ForAll([j, s_], TERM(0, j, s_) == wv(j), [TERM(0, j, s_)]))
+        S.ctx.assume(T.ForAll([k, j, s_], z3.Implies(k >= 0, TERM(k + 1, j, s_) == TERM(k, j, s_) * g["fm"](k, T.tz(subs.fn(s_, k)), j)), [TERM(k + 1, j, s_)]))
+        S.ctx.assume(T.ForAll([s_], ACC(0, s_) == 0, [ACC(0, s_)]))
+        S.ctx.assume(T.ForAll([j, s_], z3.Implies(j >= 0, ACC(j + 1, s_) == ACC(j, s_) + TERM(g["N"], j, s_)), [ACC(j + 1, s_)]))
+
+    @staticmethod
+    def _col(S, a, env, name, spec):
+        v = N.snap(env[name])
+        subs = env["wsubs"]
+        kt_mask._defs(S, a, subs)
+        nv = subs.shape[0]
+        s_ = z3.Int("mk!cs")
+        if not (isinstance(v, Arr) and v.ndim == 2):
+            return False
+        return z3.And(T.tz(T.eq(v.shape[0], nv)), T.tz(T.eq(v.shape[1], 1)),
+                      T.ForAll([s_], z3.Implies(z3.And(0 <= s_, T.tz(s_ < nv)), T.tz(T.as_real(v.fn(s_, 0))) == spec(s_)), [v.fn(s_, 0)]))
+
+    loops = {0: dict(modifies=["vals"], inv=lambda S, a, env, j: kt_mask._col(S, a, env, "vals", lambda s_: a["__self__"].ghost["ACC"](T.tz(j), s_))),
+             1: dict(modifies=["tmpvals"], inv=lambda S, a, env, k: kt_mask._col(S, a, env, "tmpvals", lambda s_: a["__self__"].ghost["TERM"](T.tz(k), T.tz(env["j"]), s_)))}
+
+    def ensures(self, S, a, ret):
+        g = a["__self__"].ghost
+        subs = S.body_ghosts.get("mask:wsubs")
+        yield "one-value-per-mask-entry", isinstance(ret, Arr) and ret.ndim == 2 and bool(subs)
+        if not (isinstance(ret, Arr) and ret.ndim == 2 and subs):
+            return
+        yield "values-of-the-Kruskal-tensor-at-the-mask-subscripts", self._col(S, a, dict(vals=ret, wsubs=subs[-1]), "vals", lambda s_: g["ACC"](g["R"], s_))
